@@ -79,6 +79,11 @@ def _text_lines(draw, enc, kind, declared):
     n = draw(st.integers(1, 5))
     lines = draw(st.lists(st.sampled_from(pool), min_size=n, max_size=n))
 
+    if draw(st.integers(0, 7)) == 0:
+        # a long line (longer than the reader's read-ahead block)
+        k = draw(st.sampled_from([90, 95, 96, 97, 191, 192, 193, 300]))
+        lines[draw(st.integers(0, n - 1))] = 'L' * k
+
     if kind == 'unix':
         # incidental CR at the end of later lines (looks like CRLF)
         lines = [l + ('\r' if i > 0 and draw(st.integers(0, 5)) == 0 else '')
@@ -422,6 +427,10 @@ def render(doc):
 
         if [k for k, _ in pairs] != sorted(k for k, _ in pairs):
             r.freedoms.add('options-shuffled')
+
+        for epos, ekey, evalue in s.get('extra', ()):
+            # unknown options (C12) / padding (C17), at a given position
+            pairs.insert(epos % (len(pairs) + 1), (ekey, evalue))
 
         header = ('#%s:' % sid).encode('ascii')
 
